@@ -420,7 +420,7 @@ def run(ck):
         hist = (rp.get("limit_setting", ""), rp.get("lockout_setting", ""), [tuple(o) for o in rp.get("ops", [])])
         modes = [(rp.get("mode", "explicit"), [hist])]
     else:
-        ne, nr = (110, 40) if quick else (1500, 500)
+        ne, nr = (90, 30) if quick else (1500, 500)
         corpus = [(a, b, list(c)) for a, b, c in CORPUS]
         exp = corpus + [gen_history(ck.rng, True) for _ in range(ne)]
         real = [(a, b, [o if o[0] != "S" else ("S", max(MS, o[1] // MS * MS)) for o in c if o[0] != "P"]) for a, b, c in corpus]
